@@ -688,3 +688,13 @@ func corpusReplay(r *Report, o *Obligation) (ReplayResult, bool) {
 	}
 	return ReplayResult{Summary: "no demonstration of the seeded corpus recorded against this clause fails on this tree (" + strings.Join(notes, "; ") + ")"}, false
 }
+
+func init() {
+	replayDrivers = append(replayDrivers, replayDriver{
+		match: func(n string) bool { return strings.Contains(n, "C16.profile-write-back-in-the-critical-section-of-its-load") },
+		run: func(r *Report, o *Obligation, sr *SolveResult) ReplayResult {
+			out, conf := goReplay(r, "cmd/keymasterd", "keymasterd_lostupdate_replay_test.go", "TestVerifReplayProfileLostUpdate", map[string]string{})
+			return ReplayResult{Confirmed: conf, Summary: replaySummary(out), Output: truncate(out, 4000), Driver: "TestVerifReplayProfileLostUpdate (history: a profile writer is held after its load while a token is disabled and acknowledged, then released; the writer replayed is the TOTP log-in - for a new writer the mechanism is the same, its own interleaving is not constructed)"}
+		},
+	})
+}
